@@ -575,20 +575,27 @@ class CallMixin:
         if not a:
             return ""
         v = a[0]
+        if isinstance(v, TInt) and not isinstance(v.val, Sym):
+            v = v.val
         if isinstance(v, (Sym, Ref)):
-            return "<?>"
+            return SMsg()           # text of a symbolic value: not modelled (values.SMsg), never a made-up string
         return str(v)
 
     def b_repr(self, a, k):
-        return "<?>" if isinstance(a[0], (Sym, Ref)) else repr(a[0])
+        return SMsg() if isinstance(a[0], (Sym, Ref)) else repr(a[0])
 
     def b_hex(self, a, k):
         if isinstance(a[0], int):
             return hex(a[0])
-        return "<?>"
+        return SMsg()
 
     def b_format(self, a, k):
-        return "<?>"
+        if any(isinstance(x, (Sym, Ref)) for x in a):
+            return SMsg()
+        try:
+            return format(*a)
+        except (TypeError, ValueError) as e:
+            raise PyExc(type(e))
 
     def b_list(self, a, k):
         return self.p.alloc(HList(self.iterate(a[0]) if a else []))
@@ -1166,7 +1173,12 @@ class CallMixin:
     def str_method(self, v, name, args, kwargs):
         if all(not isinstance(a, (Sym, Ref)) for a in args) or name == "format":
             if name == "format":
-                return "<fmt>"
+                if any(isinstance(x, (Sym, Ref)) for x in list(args) + list(kwargs.values())):
+                    return SMsg()
+                try:
+                    return v.format(*args, **kwargs)
+                except (IndexError, KeyError, ValueError, TypeError) as e:
+                    raise PyExc(type(e))
             if name == "join":
                 items = self.iterate(args[0])
                 if all(isinstance(x, str) for x in items):
